@@ -20,6 +20,9 @@ def both(ctx, ev, req):
     ev.requests.append(req)
     ev.impl.append(i)
     ev.model.append(m)
+    if i == "hang" and m != "hang" and not ev.corr:
+        # the server was killed after the time limit (proc.TIMEOUT): the model answers, the implementation does not
+        ev.corr = "the implementation did not answer within the time limit (neither a value nor an error): %s" % req[:200]
     return i, m
 
 
@@ -780,6 +783,22 @@ class C16(LiftProp):
                 c["chains"][k][side][1] = rng.choice([end - 1, max(0, end - start), max(0, end - start - 1), rng.randint(0, end - 1)])
                 c["kind"] = "size-below-end"
                 yield c
+            elif rng.random() < 0.1 and case["chains"]:
+                # records that run PAST the declared end (a block or a gap enlarged, header untouched), on one side or on
+                # both: no machine may be built, else it returns coordinates beyond the extent and possibly the size
+                c = copy.deepcopy(case)
+                k = rng.randrange(len(c["chains"]))
+                bl = c["chains"][k]["blocks"]
+                j = rng.randrange(len(bl))
+                grow = rng.choice([1, 2, 7, 1000, c["chains"][k]["ref"][1], c["chains"][k]["qry"][1]])
+                field = rng.choice([0, 0, 1, 2]) if j + 1 < len(bl) else 0
+                bl[j][field] = min(U64, bl[j][field] + max(1, grow))
+                c["kind"] = "overshoot"
+                # ask about the far end of every contig too
+                for ch_ in c["chains"]:
+                    for side in ("ref",):
+                        c["ivs"].append([ch_[side][0], ch_[side][2], 0, min(U64, ch_[side][1] + 2000)])
+                yield c
             else:
                 yield case
 
@@ -810,8 +829,8 @@ class C16(LiftProp):
                         if rs is None or qs is None or not (0 <= p[2] <= p[3] <= rs) or not (0 <= p[6] <= p[7] <= qs):
                             ev.judge += "; and the machine built from it returns %s, outside the sizes it reports (ref %s / qry %s)" % (p, rs, qs)
                             return ev
-            if case.get("kind") == "size-below-end":
-                ev.nontrivial = ("below", case_key(case))
+            if case.get("kind") in ("size-below-end", "overshoot"):
+                ev.nontrivial = (case["kind"], case_key(case))
             return ev
         if not b.startswith("ok"):
             ev.judge = "well-formed file refused: " + b
@@ -1256,7 +1275,9 @@ class C07(LinesBase):
             obs = lambda xs: (xs[-1], len(xs) - 1 <= n + 1)
             if obs(ii) != obs(mm):
                 ev.corr = "impl %r vs model %r" % (i[:300], m[:300])
-            if ii[-1].startswith("adaptor-differ"):
+            if i == "hang":
+                ev.judge = "a next() call of the section iterator never returned (%d lines; time limit reached)" % n
+            elif ii[-1].startswith("adaptor-differ"):
                 ev.judge = "count()/last()/size_hint() of the section iterator disagree with repeated next(): " + ii[-1]
             elif ii[-1] != "done":
                 ev.judge = "section iterator did not end within %d calls (%d lines): ...%s" % (cap, n, " ; ".join(ii[-3:]))
@@ -1585,6 +1606,9 @@ class C12(Prop):
             ii = blank_norm(i.split(" ; "))
             if ii != blank_norm(m.split(" ; ")):
                 ev.corr = "sections (%s): impl %r vs model %r" % (label, i[:200], m[:200])
+            if ii[-1].startswith("adaptor-differ"):
+                ev.judge = "under '%s' the sections reached through nth()/skip()/step_by()/count()/last() are not those of repeated next(): %s" % (label, ii[-1])
+                break
             if label != "blank padding" or True:
                 if base is None:
                     base = ii
@@ -1885,12 +1909,19 @@ class C17(Prop):
                 elif r < 0.75:
                     ops.append("lines%d" % rng.randint(0, 4))
                 else:
-                    ops.append("secs%d" % rng.randint(1, 3))
+                    ops.append("secs%d" % rng.choice([0, 1, 1, 2, 3]))
             if rng.random() < 0.2:
                 # hand the stream to a new Reader between two operations (into_inner + Reader::new): no line is lost or skipped
                 ops.insert(rng.randint(1, len(ops)), "reopen")
-            yield {"kind": "ops", "lines": [l.hex() for l in raw], "ops": ops, "eol": rng.choice(["\n", "\r\n"]),
-                   "final_newline": rng.random() < 0.6}
+            case = {"kind": "ops", "lines": [l.hex() for l in raw], "ops": ops, "eol": rng.choice(["\n", "\r\n"]),
+                    "final_newline": rng.random() < 0.6}
+            if rng.random() < 0.25 and raw:
+                # the stream arrives in two pieces cut at a line boundary, with a one-shot hard failure or a transient
+                # Interrupted between them: whatever is behind the boundary is not there yet when the line before it is
+                # read (a reading method that peeks beyond its line meets the failure one call too early)
+                nl = len(raw) if case["final_newline"] else len(raw) - 1
+                case["fault"] = [rng.randint(0, nl), rng.choice(["f", "f", "i"])]
+            yield case
 
     def evaluate(self, ctx, case):
         ev = Eval()
@@ -1898,6 +1929,13 @@ class C17(Prop):
         raw = [bytes.fromhex(h) for h in case["lines"]]
         data = eol.join(raw) + (eol if case["final_newline"] and raw else b"")
         src = ch.src_one(data)
+        fault = case.get("fault")
+        if fault:
+            # (a shrunk case may have fewer lines: the cut stays on a line boundary, never behind an unterminated line)
+            fault = [min(fault[0], max(0, len(raw) if case["final_newline"] else len(raw) - 1)), fault[1]]
+            cut = sum(len(t) + len(eol) for t in raw[:fault[0]])
+            src = ch.src_events([("c", data[:cut]), fault[1], ("c", data[cut:])])
+            ev.tags.append("fault:" + fault[1])
         i, m = both(ctx, ev, "ops %s %s" % (src, ",".join(case["ops"])))
         im, mm = [blank_norm(x.split(" / ")) for x in i.split(" ; ")], [blank_norm(x.split(" / ")) for x in m.split(" ; ")]
         if im != mm:
@@ -1928,6 +1966,10 @@ class C17(Prop):
                 if len(t) < 200:
                     self._canon_cache[t] = c
                 canon.append(c)
+        if fault and fault[1] == "f":
+            # a hard failure between two lines is observed exactly once, by the read that reaches it, like a line
+            rawl.insert(fault[0], "io")
+            canon.insert(fault[0], "io")
         cur = 0
         kinds = set()
         yielded = False
@@ -2449,6 +2491,9 @@ class C06(Prop):
         ev = Eval()
         for req in self.requests(case):
             i, m = both(ctx, ev, req)
+            if i == "hang":
+                ev.judge = "%s did not return within the time limit: neither a value nor an error (the model answers %s)" % (req.split(" ")[0], m[:120])
+                return ev
             w = ctx.impl_wrap.ask(req) if ctx.impl_wrap else i
             ip = "panic" in i.split(" ") or i == "abort" or "panic" in i.split(" ; ")
             wp = "panic" in w.split(" ") or w == "abort" or "panic" in w.split(" ; ")
@@ -2570,7 +2615,13 @@ class C18(Prop):
             a, b = (iv[2], iv[3]) if iv[1] == "+" else (iv[3], iv[2])
             return "%s:%s:%d-%d" % (iv[0], iv[1], a, b)
         inp = data.hex() + "\n" + "\n".join(plain(iv) for iv in ivs) + "\n"
-        r = subprocess.run([self.probe], input=inp, stdout=subprocess.PIPE, stderr=subprocess.PIPE, text=True, timeout=120)
+        try:
+            r = subprocess.run([self.probe], input=inp, stdout=subprocess.PIPE, stderr=subprocess.PIPE, text=True, timeout=120)
+        except subprocess.TimeoutExpired:
+            ev.requests.append("cfsendsync <file> <%d intervals>" % len(ivs))
+            ev.judge = ("8 threads sharing one machine did not finish %d liftovers each within 120 s (the sequential run of the "
+                        "same calls takes milliseconds): concurrent calls block one another" % len(ivs))
+            return ev
         ev.requests.append("cfsendsync <file> <%d intervals>" % len(ivs))
         ev.impl.append(r.stdout[:500])
         lines = r.stdout.strip().split("\n")
